@@ -15,6 +15,8 @@ import (
 type Source struct {
 	handle   *afp.TPacket
 	linkType layers.LinkType
+	// user space copy of the attached BPF filter
+	filter *bpf.VM
 }
 
 // Assert that AfPacketSource conforms to the packet.ReadWriter interface
@@ -29,7 +31,7 @@ func NewPacketSource(iface string, vpnMode bool) (*Source, error) {
 	if vpnMode {
 		linkType = layers.LinkTypeIPv4
 	}
-	return &Source{handle, linkType}, nil
+	return &Source{handle: handle, linkType: linkType}, nil
 }
 
 // maxPacketLength is the maximum size of packets to capture in bytes.
@@ -50,7 +52,16 @@ func (s *Source) SetBPFFilter(bpfFilter string, maxPacketLength int) error {
 		}
 		bpfIns = append(bpfIns, rawIns)
 	}
-	return s.handle.SetBPF(bpfIns)
+	if err = s.handle.SetBPF(bpfIns); err != nil {
+		return err
+	}
+	// The socket receives all packets from the moment it is created, so packets
+	// that arrived before the filter was attached are already queued.
+	// Keep a copy of the filter to drop them on read.
+	if ins, ok := bpf.Disassemble(bpfIns); ok {
+		s.filter, _ = bpf.NewVM(ins)
+	}
+	return nil
 }
 
 func (s *Source) Close() {
@@ -58,8 +69,16 @@ func (s *Source) Close() {
 }
 
 func (s *Source) ReadPacketData() ([]byte, *gopacket.CaptureInfo, error) {
-	data, ci, err := s.handle.ZeroCopyReadPacketData()
-	return data, &ci, err
+	for {
+		data, ci, err := s.handle.ZeroCopyReadPacketData()
+		if err == nil && s.filter != nil {
+			// skip packets queued before the filter was attached
+			if n, ferr := s.filter.Run(data); ferr == nil && n == 0 {
+				continue
+			}
+		}
+		return data, &ci, err
+	}
 }
 
 func (s *Source) WritePacketData(pkt []byte) error {
